@@ -17,6 +17,11 @@ Model (JSON-serialisable; the top-level package name is NOT part of the model, t
          | {"t": "import",  "mod": idx, "as": asname | None}                                     import pkg.a [as x]
          | {"t": "star",    "mod": idx, "rel": bool}                                             from pkg.a import *
          | {"t": "all",     "names": [str, ...]}                                                  __all__ = [...]
+         | {"t": "iffalse", "cond": <constant expression>, "else": bool, "name": str, "value": <literal source>}
+           # `if <false constant>: name = value` (or `if <true constant>: pass / else: name = value`) AFTER `name` was bound by a
+           # def / class / import / assignment of the same scope: never executed, and the visitor keeps the first binding
+           # an import item may carry "try": {bound name: <literal source>}: `try: <import> / except ImportError: name = literal`
+           # (the import succeeds by construction; the visitor prefers the no-exception case)
     param = {"n": str, "k": "po" | "pk" | "va" | "ko" | "vk", "d": <literal source> | None, "a": <annotation source> | None}
 
 Soundness (every case is an importable package inside the property's domain) is by construction:
@@ -34,7 +39,11 @@ Soundness (every case is an importable package inside the property's domain) is 
 * typing bases: `Generic[T]` (last base) and `Protocol` / `Protocol[T]` (sole base, protocols only inherit protocols); a base
   is subscripted (`Repo[int]`, `Repo[T]`) only if that class still has a free type variable; the same class never appears
   twice among the bases; `T` is the module's own `TypeVar("T")` from the typing header;
-* no conditional definitions, no annotation-only attributes, no callable instances / lambdas / class aliases as attribute
+* conditional code only in the two shapes where the visitor's rule and the runtime must agree: the optional-import idiom
+  (`try: import` that succeeds, `except ImportError:` fallback assignments of the imported names) and a constant-false `if`
+  (or the `else` of a constant-true `if`) re-assigning a name that an explicit statement of the same scope bound before; no
+  `TYPE_CHECKING` blocks, no other conditional definitions,
+* no annotation-only attributes, no callable instances / lambdas / class aliases as attribute
   values (values are literals), `self.x = ...` only inside `__init__` (reported to the oracle as init-only names);
 * `import pkg.sub` without `as` is not generated inside the top-level `__init__` (it binds the package to itself: a cyclic
   self-reference, outside "acyclic intra-package imports"); wildcard imports only from plain (non-`__init__`) modules.
@@ -79,6 +88,9 @@ STEERED: dict[str, int] = {}  # known-finding slug -> number of generated items 
 
 GENERIC_ID = -1  # typing.Generic in the MRO bookkeeping
 PROTOCOL_ID = -2  # typing.Protocol (a subclass of Generic)
+
+FALSE_CONDS = ["0", "False", "not True", "1 > 2", "''", "None", "()"]
+TRUE_CONDS = ["1", "True", "not 0", "1 < 2"]
 
 DEFAULT_FEATS = {"none_attr": True, "mangled": True, "doc_shapes": True, "star": True, "redef": True}
 
@@ -142,6 +154,32 @@ class _Builder:
             STEERED["class-private-name-mangling"] = STEERED.get("class-private-name-mangling", 0) + 1
             return False
         return True
+
+    def maybe_try(self, item: dict, bound: list[str]) -> None:
+        """Optional-import idiom: wrap the (succeeding) import in try/except ImportError with fallback assignments."""
+        if bound and self.chance(25):
+            item["try"] = {n: self.value(True) for n in bound}
+
+    def iffalse(self, name: str) -> dict:
+        if self.chance(70):
+            return {"t": "iffalse", "cond": self.pick(FALSE_CONDS), "else": False, "name": name, "value": self.value(True)}
+        return {"t": "iffalse", "cond": self.pick(TRUE_CONDS), "else": True, "name": name, "value": self.value(True)}
+
+    @staticmethod
+    def explicit_names(items: list[dict]) -> list[str]:
+        """Names an explicit statement of this body binds (wildcard imports, header imports and `import pkg.x` excluded)."""
+        out: list[str] = []
+        for it in items:
+            t = it["t"]
+            if t in ("attr", "func", "class"):
+                out.append(it["name"])
+            elif t == "from":
+                out += [a or n for n, a in it["names"] if (a or n) != TOP]
+            elif t == "frommod" and it.get("as"):
+                out.append(it["as"])
+            elif t == "import" and it.get("as"):
+                out.append(it["as"])
+        return [n for n in dict.fromkeys(out) if not is_dunder(n) and not is_mangled(n)]
 
     def is_top_ref(self, ref: dict) -> bool:
         """Does this binding denote the top-level package itself (directly, or re-exported under another name)?"""
@@ -377,6 +415,10 @@ class _Builder:
                     body.append(self.func(n, None, "self"))
         # `self.v = 0` in __init__ must not shadow a method `v` of the class (the visitor would turn the method into an
         # instance attribute: that is the tolerated "instance attributes assigned in __init__", not a skeleton difference)
+        if self.chance(15):
+            names = self.explicit_names(body)
+            if names:
+                body.append(self.iffalse(self.pick(names)))
         funcs = {it["name"] for it in body if it["t"] == "func"}
         for it in body:
             if it["t"] == "func" and it["init_attrs"]:
@@ -426,6 +468,7 @@ class _Builder:
                     names.append([nm, asname])
                 if names:
                     items.append({"t": "from", "mod": j, "rel": self.chance(50), "names": names, "up": self.climb()})
+                    self.maybe_try(items[-1], [a or n for n, a in names if (a or n) != TOP])
             elif form == "frommod":
                 last = tgt["path"][-1]
                 parent_is_me = self.mods[i]["init"] and self.mods[i]["path"] == tgt["path"][:-1]
@@ -440,6 +483,8 @@ class _Builder:
                 else:
                     env[asname or last] = {"k": "module", "idx": j}
                 items.append({"t": "frommod", "mod": j, "rel": self.chance(50), "as": asname, "up": self.climb()})
+                if not (parent_is_me and asname is None):
+                    self.maybe_try(items[-1], [asname or last])
             elif form == "import":
                 asname = None
                 if is_top_init or TOP in env or self.chance(50) or not tgt["path"]:
@@ -455,6 +500,8 @@ class _Builder:
                 else:
                     env[asname] = {"k": "module", "idx": j}
                 items.append({"t": "import", "mod": j, "as": asname})
+                if asname is not None:
+                    self.maybe_try(items[-1], [asname])
             else:  # star
                 src = self.modenvs[j]
                 exported = self.mods[j].get("_all")
@@ -523,6 +570,11 @@ class _Builder:
                     uses_cached |= it["deco"] == "cached_property"
                 elif it["t"] == "class":
                     scan(it["body"])
+
+        if self.chance(30):
+            names = self.explicit_names(body)
+            for _ in range(d(st.integers(1, 2)) if names else 0):
+                body.append(self.iffalse(self.pick(names)))
 
         scan(body)
         # header imports the renderer adds (bound names, visible to wildcard imports of later modules)
@@ -636,6 +688,12 @@ def _render_items(items: list[dict], ind: str, top: str, mods: list[dict], me: d
             out.append(f"{ind}{it['name']} = {it['value']}")
         elif t == "all":
             out.append(f"{ind}__all__ = {it['names']!r}")
+        elif t == "iffalse":
+            out.append(f"{ind}if {it['cond']}:")
+            if it["else"]:
+                out.append(f"{ind}    pass")
+                out.append(f"{ind}else:")
+            out.append(f"{ind}    {it['name']} = {it['value']}")
         elif t == "func":
             deco = it["deco"]
             if deco == "fcached_property":
@@ -676,16 +734,23 @@ def _render_items(items: list[dict], ind: str, top: str, mods: list[dict], me: d
             if t == "from":
                 names = ", ".join((top if n == TOP else n) + (f" as {a}" if a else "") for n, a in it["names"])
                 src = rel(tgt["path"]) if it["rel"] else absolute
-                out.append(f"{ind}from {src} import {names}")
+                stmt = f"from {src} import {names}"
             elif t == "star":
                 src = rel(tgt["path"]) if it["rel"] else absolute
-                out.append(f"{ind}from {src} import *")
+                stmt = f"from {src} import *"
             elif t == "frommod":
                 parent = tgt["path"][:-1]
                 src = rel(parent) if it["rel"] else dotted(top, parent)
-                out.append(f"{ind}from {src} import {tgt['path'][-1]}" + (f" as {it['as']}" if it["as"] else ""))
-            elif t == "import":
-                out.append(f"{ind}import {absolute}" + (f" as {it['as']}" if it["as"] else ""))
+                stmt = f"from {src} import {tgt['path'][-1]}" + (f" as {it['as']}" if it["as"] else "")
+            else:
+                stmt = f"import {absolute}" + (f" as {it['as']}" if it["as"] else "")
+            if it.get("try"):
+                out.append(f"{ind}try:")
+                out.append(f"{ind}    {stmt}")
+                out.append(f"{ind}except ImportError:")
+                out.extend(f"{ind}    {n} = {v}" for n, v in it["try"].items())
+            else:
+                out.append(f"{ind}{stmt}")
 
 
 def _uses(items: list[dict], deco: str) -> bool:
@@ -785,8 +850,15 @@ def describe(case: dict):
                         cls.add("import:relative-level>=2-in-nested-__init__")
                 if mods[it["mod"]]["init"]:
                     cls.add("import:from-init")
+                if it.get("try"):
+                    cls.add("cond:try-import-fallback")
             elif t == "all":
                 cls.add("__all__")
+            elif t == "iffalse":
+                first = next((x for x in items if x is not it and (x.get("name") == it["name"] and x["t"] in ("attr", "func", "class"))), None)
+                cls.add("cond:if-false-rebinding:" + (first["t"] if first else "import") + ("" if not in_class else "@class"))
+                if it["else"]:
+                    cls.add("cond:else-of-true")
             elif t == "attr":
                 names.append(it["name"])
                 cls.add("attr:class" if in_class else "attr:module")
